@@ -153,16 +153,8 @@ def run(ctx):
     else:
         for fld in ('hp', 'cs', 'od', 'ar', 'slider_multiplier', 'slider_tick_rate'):
             v = lit[0][4].get(fld)
-            alts = v[1] if v is not None and v[0] == 'phi' else [v]
-            good = v is not None and all(prov.strip(a, names={'from', 'into'})[0] == 'call' and prov.strip(a, names={'from', 'into'})[1].get('name') == 'clamp' for a in alts)
-            consts = []
-            if good:
-                for a in alts:
-                    c = prov.strip(a, names={'from', 'into'})
-                    consts.append((prov.const_val(c[2][1]), prov.const_val(c[2][2])))
             n2 += 1
-            ctx.require(good, 'C06-R2', 'beatmap:' + fld, 'Beatmap.%s = clamp(.., %s)' % (fld, consts), frm.where(),
-                        bad='Beatmap.%s is `%s`: the decoded value is not clamped' % (fld, prov.show(v, maxdepth=4) if v else '?'))
+            clamp_field(ctx, F, frm, fld, v)
     for adt, fields in (('model::control_point::timing::TimingPoint', ['beat_len']),
                         ('model::control_point::difficulty::DifficultyPoint', ['slider_velocity', 'bpm_multiplier'])):
         new = F.method(adt, 'new', inherent_only=True)
@@ -269,3 +261,81 @@ def run(ctx):
     ctx.assume('rosu-map 0.2.1: its DecodeBeatmap driver discards per-line parse_* errors and ParseNumber rejects NaN and |v| > limit')
     ctx.not_decided('bounds / overflow Assert terminators inside the decoder; finiteness of every derived field; equality of the three entry points\' '
                     'results beyond delegation')
+
+
+# ---- R2 helper: a Beatmap difficulty value is clamped, either where the Beatmap is built (the mode is final there) or at
+# every write of the parsed value with one mode-independent pair of bounds
+DIFF_ADT = 'rosu_map::section::difficulty::Difficulty'
+
+
+def _clamp_bounds(a):
+    c = prov.strip(a, names={'from', 'into'})
+    if c[0] == 'call' and c[1].get('name') == 'clamp' and len(c[2]) == 3:
+        return (prov.const_val(c[2][1]), prov.const_val(c[2][2]))
+    return None
+
+
+def clamp_field(ctx, F, frm, fld, v):
+    import fieldidx
+    from common import as_param_path
+    key = 'beatmap:' + fld
+    if v is None:
+        ctx.violation('C06-R2', key, 'Beatmap.%s is not set by From<BeatmapState>' % fld, frm.where())
+        return
+    alts = v[1] if v[0] == 'phi' else [v]
+    bounds = [_clamp_bounds(a) for a in alts]
+    if all(b is not None for b in bounds):
+        ctx.ok('C06-R2', key, 'Beatmap.%s = clamp(.., %s) where the Beatmap is built' % (fld, bounds), frm.where())
+        return
+    # case B: handed through from the parser state; then every write of that state field must clamp, with the same bounds
+    pp = as_param_path(prov.strip(v, names={'from', 'into'}), through_calls=False)
+    if not (pp and pp[0] == 1 and len(pp[1]) == 2 and pp[1][0] == 'difficulty'):
+        ctx.violation('C06-R2', key, 'Beatmap.%s is `%s`: the decoded value is not clamped' % (fld, prov.show(v, maxdepth=4)), frm.where())
+        return
+    g = pp[1][1]
+    seen = set()
+
+    def writes_bounds(g, depth=0):
+        """set of bounds over all writes of Difficulty.g, or a string describing the offending write"""
+        if g in seen or depth > 2:
+            return set()
+        seen.add(g)
+        out = set()
+        acc = [a for a in fieldidx.accesses(F, DIFF_ADT, g) if a['kind'] in ('assign', 'mutborrow') and a['last']]
+        if not acc:
+            return 'no write of Difficulty.%s found' % g
+        for a in acc:
+            fn = a['fn']
+            if a['kind'] == 'mutborrow':
+                return '%s takes &mut Difficulty.%s' % (fn.path, g)
+            P = prov.prov_of(fn)
+            if 'stmt' in a:
+                s_ = a['stmt']
+                w = P.rvalue(s_['rv'], a['bb'], fn.blocks[a['bb']]['s'].index(s_))
+            else:
+                return '%s writes Difficulty.%s with a call result' % (fn.path, g)
+            for alt in (w[1] if w[0] == 'phi' else [w]):
+                b = _clamp_bounds(alt)
+                if b is not None:
+                    out.add(b)
+                    continue
+                st = prov.strip(alt, names={'from', 'into'})
+                if st[0] == 'field' and isinstance(st[2], str) and st[2] != g:
+                    sub = writes_bounds(st[2], depth + 1)
+                    if isinstance(sub, str):
+                        return sub
+                    out |= sub
+                    continue
+                return '%s (line %s) writes Difficulty.%s = `%s` without clamp' % (fn.path, a['line'], g, prov.show(alt, maxdepth=3))
+        return out
+
+    wb = writes_bounds(g)
+    if isinstance(wb, str):
+        ctx.violation('C06-R2', key, 'Beatmap.%s is handed through from the parser state and %s' % (fld, wb), frm.where())
+    elif len(wb) != 1:
+        ctx.violation('C06-R2', key, 'Beatmap.%s is handed through from the parser state and the writes of Difficulty.%s clamp with different bounds %s: '
+                      'a bound chosen while parsing depends on parser state (the mode) that a later or repeated line can still change, so the final value can lie '
+                      'outside the clamp documented for the final mode' % (fld, g, sorted(wb)), frm.where())
+    else:
+        ctx.ok('C06-R2', key, 'Beatmap.%s is handed through; every write of Difficulty.%s stores clamp(.., %s)' % (fld, g, sorted(wb)), frm.where())
+        ctx.assumed('C06-R2', key + ':default', 'the default of rosu_map Difficulty.%s lies inside %s (dependency value, not read here)' % (g, sorted(wb)), frm.where())
